@@ -190,11 +190,33 @@ theorem sync0 {dir : String} {s : St} {m : BSpec} (h : HInv0 dir s m) :
 
 /-! ## `Backup` into another directory -/
 
+theorem mergeDirName_inj {a b : String} (h : mergeDirName a = mergeDirName b) : a = b := by
+  unfold mergeDirName at h
+  have := congrArg String.toList h
+  simp only [String.toList_append] at this
+  exact String.toList_inj.mp (List.append_cancel_right this)
+
+/-- `Backup` writes `dest` and removes `mergeDirName dest` (unless that is the data directory): the
+    data directory and its merge directory are where they were when `dest` is neither of them -/
 theorem backup_eq {s : St} {db : DB} (hs : s.db = some db) (dest : String) :
-    ∃ X, backup s dest = ({ s with world := s.world.set dest X }, .ok) := by
+    ∃ W, backup s dest = ({ s with world := W }, .ok) ∧
+      (dest ≠ db.dir → W.get db.dir = s.world.get db.dir) ∧
+      (dest ≠ db.dir → dest ≠ mergeDirName db.dir →
+        W.get (mergeDirName db.dir) = s.world.get (mergeDirName db.dir)) := by
   unfold backup withDB
   rw [hs]
-  exact ⟨_, rfl⟩
+  refine ⟨_, rfl, fun h1 => ?_, fun h1 h2 => ?_⟩
+  · simp only []
+    rw [MergeP.get_set_ne _ _ _ _ (fun e => h1 e.symm)]
+    split
+    · rfl
+    · rename_i hm
+      exact MergeP.get_remove_ne _ _ _ (fun e => hm e.symm)
+  · simp only []
+    rw [MergeP.get_set_ne _ _ _ _ (fun e => h2 e.symm)]
+    split
+    · rfl
+    · exact MergeP.get_remove_ne _ _ _ (fun e => h1 (mergeDirName_inj e).symm)
 
 theorem Inv_frame {s s' : St} {db : DB} {g : GDir} (h : Inv s db g) (hw : s'.world.get db.dir = s.world.get db.dir) :
     Inv s' db g :=
@@ -205,18 +227,21 @@ theorem absGet_frame {s s' : St} (db : DB) (hw : s'.world.get db.dir = s.world.g
   unfold absGet valueAt dirOf
   rw [hw]
 
-/-- `Backup` copies the data files into `dest`; with `dest` neither the data directory nor its merge
-    directory nothing the invariant speaks about is touched -/
+/-- `Backup` copies the data files into `dest` and removes a merge directory next to `dest`
+    (`removeStaleMergeDir`, repair 88d026d); with `dest` neither the data directory nor its merge
+    directory nothing the invariant speaks about is touched: the removed `mergeDirName dest` is not
+    `mergeDirName dir` (`mergeDirName_inj`, `dest ≠ dir`), and if it is `dir` itself the guard of
+    `Backup` keeps it — NO new side condition -/
 theorem backup0 {dir : String} {s : St} {m : BSpec} (h : HInv0 dir s m) (dest : String)
     (h1 : dest ≠ dir) (h2 : dest ≠ mergeDirName dir) :
     (backup s dest).2 = .ok ∧ HInv0 dir (backup s dest).1 m := by
   obtain ⟨db, g, hs, hd, hi, habs, hms, hfr⟩ := h
-  obtain ⟨X, e⟩ := backup_eq hs dest
+  obtain ⟨W, e, hwd, hwm⟩ := backup_eq hs dest
   rw [e]
-  have hw1 : (s.world.set dest X).get db.dir = s.world.get db.dir :=
-    MergeP.get_set_ne _ _ _ _ (by rw [hd]; exact fun e => h1 e.symm)
-  have hw2 : (s.world.set dest X).get (mergeDirName dir) = s.world.get (mergeDirName dir) :=
-    MergeP.get_set_ne _ _ _ _ (fun e => h2 e.symm)
+  have hw1 : W.get db.dir = s.world.get db.dir := hwd (by rw [hd]; exact h1)
+  have hw2 : W.get (mergeDirName dir) = s.world.get (mergeDirName dir) := by
+    have := hwm (by rw [hd]; exact h1) (by rw [hd]; exact h2)
+    rw [hd] at this; exact this
   refine ⟨rfl, db, g, hs, hd, Inv_frame hi hw1, fun k => by rw [absGet_frame db hw1, habs k], ?_, hfr⟩
   rcases hms with hnm | ⟨n, gm, vis, hmo⟩
   · exact Or.inl (hnm.congr hw2)
